@@ -30,6 +30,7 @@ import PercevalModel.Lemmas.C13Ext
 import PercevalModel.Lemmas.C13Kinds
 import PercevalModel.Lemmas.C13Proc
 import PercevalModel.Lemmas.C13W7
+import PercevalModel.Model.C13Shape
 import PercevalModel.Props.C02
 
 open Matrix
@@ -1800,6 +1801,130 @@ example [DecidableEq ℂ] :
 
 end Wave7
 
+
+/-!
+## 18. The shape of the input (`PolarizationSimulator._prepare_input` before the conversion)
+
+`Model/C13Shape.lean`: the caller hands a `BasicState`, a `StateVector` or an `SVDistribution` to
+`probs` / `probs_svd` / `evolve`; the layer accepts a `BasicState` and a one-element distribution whose
+state vector has one component (`dispatch`), remembers whether it unwrapped a distribution and wraps the
+prepared spatial state again.  The session theorems of sections 8-9 are generic in the type of inputs;
+instantiated at `shapeEnv env` they give, for every history of `set_circuit` and queries of ANY shape on
+one object: a query is answered by the stateless answer for the circuit in force and the `BasicState`
+inside, or refused with `NotImplementedError` leaving the object exactly as it was — before the
+conversion is even tried (so `NotImplementedError` wins over the `ValueError` of an inadmissible state
+and over the `TypeError` of an object without circuit).
+-/
+section Shapes
+variable {C I M S O : Type}
+
+/-- the layer accepts exactly a `BasicState` (flag `false`) and a one-element distribution whose state
+vector has one component (flag `true`) -/
+theorem dispatch_ok_iff (x : Shape I) (i : I) (w : Bool) :
+    dispatch x = .ok (i, w) ↔ (x = .bs i ∧ w = false) ∨ (x = .svd [[i]] ∧ w = true) := by
+  rcases x with j | comps | svs
+  · simp [dispatch, unwrapSvd, eq_comm]
+  · simp [dispatch, unwrapSvd]
+  · rcases svs with _ | ⟨sv, _ | ⟨sv2, rest⟩⟩
+    · simp [dispatch, unwrapSvd]
+    · rcases sv with _ | ⟨j, _ | ⟨j2, r⟩⟩ <;> simp [dispatch, unwrapSvd, eq_comm]
+    · simp [dispatch, unwrapSvd]
+
+/-- every other shape — any `StateVector`, an empty distribution, several state vectors, a superposition —
+is refused with `NotImplementedError` -/
+theorem dispatch_rejects (x : Shape I) (h₁ : ∀ i, x ≠ .bs i) (h₂ : ∀ i, x ≠ .svd [[i]]) :
+    dispatch x = .error "NotImplementedError" := by
+  rcases x with j | comps | svs
+  · exact absurd rfl (h₁ j)
+  · simp [dispatch, unwrapSvd]
+  · rcases svs with _ | ⟨sv, _ | ⟨sv2, rest⟩⟩
+    · simp [dispatch, unwrapSvd]
+    · rcases sv with _ | ⟨j, _ | ⟨j2, r⟩⟩
+      · simp [dispatch, unwrapSvd]
+      · exact absurd rfl (h₂ j)
+      · simp [dispatch, unwrapSvd]
+    · simp [dispatch, unwrapSvd]
+
+/-- the dispatch raises no other class -/
+theorem dispatch_error_class (x : Shape I) (e : String) (h : dispatch x = .error e) :
+    e = "NotImplementedError" := by
+  unfold dispatch at h
+  split at h
+  · cases h
+  · cases h; rfl
+
+/-- the stateless answer with the dispatch in front -/
+theorem shaped_answer (env : Env C I M S O) (c : Option C) (x : Shape I) :
+    answer (shapeEnv env) c x =
+      match dispatch x with
+      | .error e => .error e
+      | .ok (i, _) => answer env c i := by
+  unfold answer
+  simp only [shapeEnv]
+  rcases hd : dispatch x with e | ⟨i, w⟩
+  · rfl
+  · rcases hp : env.prepare i with e | ⟨s, p⟩
+    · simp [hp]
+    · rcases c with _ | c
+      · simp [hp]
+      · rcases hc : env.compile c with e | u
+        · simp [hp, hc]
+        · rcases hm : env.mkUnitary u p with e | w' <;> simp [hp, hc, hm]
+
+/-- a `BasicState` is served as in sections 8-11 -/
+theorem shaped_answer_bs (env : Env C I M S O) (c : Option C) (i : I) :
+    answer (shapeEnv env) c (.bs i) = answer env c i := by
+  rw [shaped_answer]; rfl
+
+/-- `SVDistribution(bs)` is served as `bs` -/
+theorem shaped_answer_svd (env : Env C I M S O) (c : Option C) (i : I) :
+    answer (shapeEnv env) c (.svd [[i]]) = answer env c i := by
+  rw [shaped_answer]; rfl
+
+/-- a refused shape leaves `_upol` AND the circuit held by the wrapped simulator as they were, whatever
+the state inside (it is refused before the conversion) and whether or not a circuit was set -/
+theorem shaped_rejected_keeps_object (env : Env C I M S O) (st : Layer M) (x : Shape I) (e : String)
+    (h : dispatch x = .error e) :
+    sessionStep (shapeEnv env) st (.probs x) = (st, .error "NotImplementedError") := by
+  have := dispatch_error_class x e h
+  subst this
+  simp [sessionStep, shapeEnv, h]
+
+/-- after any history of `set_circuit` and requests of any shape on a fresh object, a request is refused by
+its shape or answered by the stateless answer for the circuit in force and the `BasicState` inside -/
+theorem shaped_session_query_answer (env : Env C I M S O) (y : Option M) (h : List (Cmd C (Shape I)))
+    (x : Shape I) :
+    (sessionStep (shapeEnv env) (SM.exec (sessionStep (shapeEnv env)) ⟨none, y⟩ h) (.probs x)).2 =
+      match dispatch x with
+      | .error e => .error e
+      | .ok (i, _) => answer env (inForce (shapeEnv env) none h) i := by
+  rw [session_query_answer, shaped_answer]
+
+/-- the contrast design answers a superposition from its first component alone; the code refuses it -/
+theorem loose_dispatch_drops_components :
+    dispatchLoose (Shape.svd [[0, 1]]) = .ok ((0 : ℕ), true) ∧
+    dispatch (Shape.svd [[(0 : ℕ), 1]]) = .error "NotImplementedError" := by
+  constructor <;> rfl
+
+
+/-- the flag handed on is `true` exactly when the caller handed an `SVDistribution`: `probs_svd` of the
+wrapped simulator gets a distribution, `probs` / `evolve` a Fock state -/
+theorem dispatch_keeps_form (x : Shape I) (i : I) (w : Bool) (h : dispatch x = .ok (i, w)) :
+    w = true ↔ ∃ svs, x = .svd svs := by
+  rcases (dispatch_ok_iff x i w).1 h with ⟨rfl, rfl⟩ | ⟨rfl, rfl⟩
+  · simp
+  · simp
+
+/-- non-vacuity: both accepted forms and three rejected ones -/
+example : dispatch (Shape.bs (7 : ℕ)) = .ok (7, false) ∧ dispatch (Shape.svd [[(7 : ℕ)]]) = .ok (7, true) ∧
+    dispatch (Shape.sv [(7 : ℕ)]) = .error "NotImplementedError" ∧
+    dispatch (Shape.svd [[(7 : ℕ)], [8]]) = .error "NotImplementedError" ∧
+    dispatch (Shape.svd ([] : List (List ℕ))) = .error "NotImplementedError" ∧
+    dispatch (Shape.svd [([] : List ℕ)]) = .error "NotImplementedError" := by
+  refine ⟨rfl, rfl, rfl, rfl, rfl, rfl⟩
+
+end Shapes
+
 /-!
 ### What is proved here and what is not
 
@@ -1856,6 +1981,11 @@ NOT proved (validated by the correspondence only, or outside the model):
   it is); loss channels (`LC`) on a polarised processor (`LossSimulator` around the polarisation layer)
   are neither modelled nor compared here (no theorem ties C07's expansion to the doubling).
 * `cos`, `sin`, `√` themselves, the inner spatial engines (C02), the `k × k` leaf matrices (C14).
+* section 18 (input shapes) PROVES the acceptance / refusal table of `_prepare_input` and lifts the
+  session theorems to requests of any shape.  Not modelled: what the wrapped simulator does with an
+  accepted input handed to the entry point that takes the other form (`probs_svd(BasicState)`,
+  `probs(SVDistribution(bs))`: its own type errors), the weight of the single state vector, the native
+  `StateVector`'s merging of equal components, `Processor.with_input(SVDistribution / StateVector)`.
 -/
 
 end PM.C13
